@@ -6,7 +6,7 @@ open Io
      tokm <lo> <co> <text>   the same with line / column offsets (TokenizeError.clone)
      spec <ast...>     -> <wf 0/1>|<print_block>|<meaning pairs k:v;...>|<model result on print_block>
    AST encoding (prefix, one field per token), see props/C07.py enc_block:
-     block  := <lead> <nitems> item*
+     block  := <lead> <final newline 0/1> <nitems> item*
      item   := C <indent> <text> <trail> | K key <ksp> value <trail>      (blank lines: list of space counts 0,2,1 or -)
      key    := kp pline | ks <str> | kd dq
      pline  := <first> <n> (<spaces> <word>)*
@@ -132,8 +132,9 @@ let p_item () =
 
 let p_block () =
   let lead = p_nats () in
+  let fin = p_bool () in
   let items = p_list p_item in
-  { b_lead = lead; b_items = items }
+  { b_lead = lead; b_items = items; b_final_nl = fin }
 
 let handle (fs : string list) : string =
   match fs with
